@@ -34,6 +34,9 @@ func PadInPlace(data []byte) []byte {
 
 // UnpadInPlace removes padding according to the appended length byte.
 func UnpadInPlace(data []byte) ([]byte, error) {
+	if len(data) == 0 {
+		return nil, errors.New("padded message cannot be empty")
+	}
 	paddingLen := int(data[len(data)-1])
 	if paddingLen >= len(data)-1 || paddingLen >= alignPaddingTo || paddingLen < 0 {
 		return nil, errors.Errorf(
